@@ -108,9 +108,13 @@ def build_c05(rng, tier):
     sw = {'twopl': True, 'ties2': rng.choice([0, .3, .5, .7, 1]),
           'zero_cap': rng.random() < 0.35}
     inst = instances.gen_instance(rng, sw, thorough=(tier == 'thorough'))
-    pool = ['maxsize', 'minsize']
-    opts = gen_opts(rng, inst, ncrit=rng.choice([0, 0, 1, 1, 2]), stab=True,
-                    pool=pool)
+    if rng.random() < 0.3:
+        # any criteria: soundness of the feasible set and of the printed
+        # matching only (completeness is decided on size-only option sets)
+        opts = gen_opts(rng, inst, ncrit=rng.choice([1, 2, 3]), stab=True)
+    else:
+        opts = gen_opts(rng, inst, ncrit=rng.choice([0, 0, 1, 1, 2]),
+                        stab=True, pool=['maxsize', 'minsize'])
     opts['stab'] = True
     return lp_base(rng, inst, opts)
 
